@@ -60,6 +60,10 @@ fn main() {
     }
 
     // child mode used by the crash monitor (C06): not a shard, no report
+    if prop == "C06-upgrade-child" {
+        props::c06::upgrade_child_main(mode.as_deref().unwrap_or(""));
+        return;
+    }
     if prop == "C06-child" {
         props::c06::child_main(mode.as_deref().unwrap_or(""), seed);
         return;
